@@ -1346,6 +1346,16 @@ func (u *Unit) send(fr *Frame, st *State, in *ssa.Send) {
 			u.addOblNamed(st, "at", name, "at the channel send: "+at.Clause.Src, in.Pos(), goal)
 		}
 	}
+	// built-in ghost `sentLastStr` (when a spec declares it): the last string a unit
+	// sent on a channel of strings - what a streaming writer has to have sent last
+	// before it may return
+	if g, ok := u.prog.specs.GhostVars["sentLastStr"]; ok {
+		if t, isT := v.(*Term); isT {
+			if _, sort := u.resolveType(g.GoType, g.PkgPath); sort == t.Sort {
+				u.storeLoc(st, "G!sentLastStr", sort, ghostPtr, t)
+			}
+		}
+	}
 	u.escape(st, v)
 	u.note("channel send: no effect on modelled state")
 }
